@@ -305,7 +305,6 @@ def run(ctx):
     check_faces(ctx, rng)
     check_keychain(ctx, rng)
     for k in ('configuration', 'audit-open-checked', 'face-uri-supported', 'face-uri-unsupported', 'keychain', 'store-scheme-refused'):
-        if not ctx.events.get(k):
-            ctx.inconclusive(f'monitor {k} observed nothing')
+        ctx.need_event(k)
     ctx.assumptions = ['the candidate file list of the platform is redirected into the sandbox (harness wrapper); the layering logic is the library\'s',
                        'platform default store locations exist in the sandbox HOME', 'values with %, more than one colon, or duplicate keys are outside the generated domain']
